@@ -55,11 +55,14 @@ OpObj(op, path) == VObj(<< <<KOp, S(op)>>, <<KPath, S(path)>> >>)
 OpObjV(op, path, v) == VObj(<< <<KOp, S(op)>>, <<KPath, S(path)>>, <<KValue, v>> >>)
 OpObjF(op, path, from) == VObj(<< <<KOp, S(op)>>, <<KPath, S(path)>>, <<KFrom, S(from)>> >>)
 
+DupFirst(x) == [x EXCEPT !.m = [i \in DOMAIN x.m |-> x.m[1]]]
 FromPtrs(d) == PtrsOf(d) \cup {<<47, 120>>} \cup (IF Tier = "quick" THEN {} ELSE Odd)
 OpsFor(d) ==
   {OpObj(OpRemove, p) : p \in Ptrs(d)}
   \cup {OpObjV(o, p, v) : o \in {OpAdd, OpReplace, OpTest}, p \in Ptrs(d), v \in Vals}
   \cup {OpObjV(OpTest, p, ValueAt(d, Resolve(d, p))) : p \in PtrsOf(d)}
+  \* a test value that repeats a member name: as many members as the document's object, every one of them matching - and still a different value
+  \cup {OpObjV(OpTest, p, DupFirst(ValueAt(d, Resolve(d, p)))) : p \in {q \in PtrsOf(d) : LET x == ValueAt(d, Resolve(d, q)) IN x.t = "obj" /\ Len(x.m) >= 2}}
   \cup {OpObjF(o, p, f) : o \in {OpMove, OpCopy}, p \in Ptrs(d), f \in FromPtrs(d)}
 
 \* values that are not patches, and operations with members missing or of the wrong type
